@@ -22,6 +22,8 @@ def main():
     os.makedirs(build.BUILD, exist_ok=True)
     # cheap part first: every harness flavour of the data-structure checks (C29, C30)
     harness.ensure_many(all_harness_items(), jobs=16)
+    from props import c12
+    c12.ensure_functors()          # libvfunctors.so for the lattice check
     sys.stderr.write("[setup] harnesses built in %.0fs\n" % (time.time() - t0))
     # the two souffle trees the registered whole-program checks (C03-C06) use; both at once
     # (Engine.cpp needs ~6 GB per compile job at its peak, hence 10 jobs each)
